@@ -61,6 +61,15 @@ class C01(Prop):
     def gen(self, r, i, run):
         full = r.random() < 0.6  # every entry typed and described: the part of the domain where the property holds
         ir = G.gen_ir(r, rich=r.random() < 0.7, p_typ=1.0 if full else 0.85, p_doc=1.0 if full else 0.85)
+        if r.random() < 0.06:
+            # a directed family: LONG one-line prose of the return entry / of an entry (nothing is wrapped here: the
+            # conversions of this property run with word_wrap off, whatever the length)
+            long = G.sized_prose(r, r.randint(110, 170)).rstrip(".,") + "."
+            if ir["returns"] is not None and "default" not in ir["returns"]:
+                ir["returns"] = dict(ir["returns"], doc=long)
+            elif ir["params"]:
+                n0, p0 = ir["params"][0]
+                ir["params"][0] = (n0, dict(p0, doc=long))
         case = {
             "ir": ir_to_json(ir),
             "style": r.choice(STYLES),
